@@ -1069,6 +1069,8 @@ def _contains_sym(obj):
 
 
 def _exact_or_fail(fn, xa, what):
+    if getattr(xa, "dtype", None) is not None and _raw_dtype(xa).kind not in "biuf":
+        return fn(xa)  # not a number (e.g. a string): numpy itself raises what it raises natively
     if _np.all(xa == 0) and what == "exp":
         return _np.ones(xa.shape)
     if _np.all(xa == 1) and what == "log":
